@@ -7,6 +7,8 @@ import (
 	"fmt"
 	"math/rand"
 	"net/http"
+	"os"
+	"path/filepath"
 	"regexp"
 	"strings"
 	"testing"
@@ -60,6 +62,8 @@ type Scenario struct {
 	PredOrder int `json:"predorder,omitempty"`
 	// remote sources: the client's ReferrerListPageSize (the registry's page limit RefPage is the server's own choice)
 	RefN int `json:"refn,omitempty"`
+	// file store destination: longer files lie at the blobs' names already (an earlier pull into the same directory)
+	PreFiles bool `json:"prefiles,omitempty"`
 }
 
 var errCallback = errors.New("verif: callback error")
@@ -114,9 +118,26 @@ func RunOne(t *testing.T, sc *Scenario, tr *vh.Tracer) Result {
 				t.Fatal(err)
 			}
 		}
-		dstm, err := newDst(t, sc.DstKind, reg)
+		dstm, err := newDst(t, sc.DstKind, reg, g, sc.PreFiles)
 		if err != nil {
 			t.Fatal(err)
+		}
+		// a file store holds one file per name: a graph that gives one name to two different blobs may be refused
+		sameName := 0
+		if sc.DstKind == "file" {
+			byTitle := map[string]string{}
+			for k := 1; k <= g.N; k++ {
+				for _, ed := range g.Nodes[k].Edges {
+					if ed.Title == "" || g.Nodes[ed.To].Kind == "foreign" {
+						continue
+					}
+					dg := g.Descs[ed.To].Digest.String()
+					if prev, ok := byTitle[ed.Title]; ok && prev != dg {
+						sameName = 1
+					}
+					byTitle[ed.Title] = dg
+				}
+			}
 		}
 		for _, k := range sc.Dst0 {
 			if err := dstm.Push(bg, g.Descs[k], bytes.NewReader(g.Blobs[k])); err != nil && !errors.Is(err, errdef.ErrAlreadyExists) {
@@ -285,7 +306,7 @@ func RunOne(t *testing.T, sc *Scenario, tr *vh.Tracer) Result {
 			fired, soft := e.fired, e.soft
 			e.mu.Unlock()
 			res.Err = callErr
-			tr.Emit(map[string]any{"e": "ret", "err": callErr != nil, "root": rootN, "fired": fired + precancel, "soft": soft, "cancelled": cancelled,
+			tr.Emit(map[string]any{"e": "ret", "err": callErr != nil, "root": rootN, "fired": fired + precancel, "soft": soft + sameName, "cancelled": cancelled,
 				"msg": errMsg(callErr), "cberr": errors.Is(callErr, errCallback)})
 		}
 		// retry without faults on the same destination when the call failed
@@ -308,7 +329,7 @@ func RunOne(t *testing.T, sc *Scenario, tr *vh.Tracer) Result {
 				s2.ReleaseAll()
 				synctest.Wait()
 			}
-			tr.Emit(map[string]any{"e": "retry", "err": rerr != nil || hang2, "msg": errMsg(rerr)})
+			tr.Emit(map[string]any{"e": "retry", "err": rerr != nil || hang2, "msg": errMsg(rerr), "mayfail": sameName == 1})
 		}
 		// post-mortem: read the underlying destination directly
 		var bytesok []int
@@ -444,14 +465,26 @@ type dstStore interface {
 	content.TagResolver
 }
 
-func newDst(t *testing.T, kind string, reg *regfake.Registry) (dstStore, error) {
+func newDst(t *testing.T, kind string, reg *regfake.Registry, g *vh.Graph, preFiles bool) (dstStore, error) {
 	switch kind {
 	case "remote":
 		return remoteRepo(reg, dstRepo, reg.Profile.Referrers)
 	case "oci":
 		return oci.New(t.TempDir())
 	case "file":
-		return file.New(t.TempDir())
+		dir := t.TempDir()
+		if preFiles {
+			for k := 1; k <= g.N; k++ {
+				for _, ed := range g.Nodes[k].Edges {
+					if ed.Title != "" && !filepath.IsAbs(ed.Title) && !strings.Contains(ed.Title, "..") {
+						p := filepath.Join(dir, ed.Title)
+						os.MkdirAll(filepath.Dir(p), 0o755)
+						os.WriteFile(p, bytes.Repeat([]byte("z"), len(g.Blobs[ed.To])+64), 0o644)
+					}
+				}
+			}
+		}
+		return file.New(dir)
 	}
 	return memory.New(), nil
 }
